@@ -496,8 +496,11 @@ def law_model(cx, schemas, hists, rl):
             keyless, twin, incase, lost, excl, exact = (c == "1" for c in sh[:6])
             fresh, toponly, unchanged = (c == "1" for c in (sh[6:9] if len(sh) >= 9 else "---"))
             # which PROVED theorem of Props/C07Valdiff.lean speaks about this input (hypotheses evaluated by the model)
-            thm = "valdiff_exact_unchanged" if unchanged else ("valdiff_exact_partial_fresh" if fresh and toponly else None)
-            cx.dist["valdiff-proved:" + (thm or ("none(" + ("not-fresh" if not fresh else "changes-below-top-level") + ")"))] += 1
+            topany = len(sh) >= 15 and sh[14] == "1"
+            thm = "valdiff_exact_unchanged" if unchanged else ("valdiff_exact_partial_fresh" if fresh and toponly else
+                                                             ("valdiff_exact_partial_top" if topany else None))
+            cx.dist["valdiff-proved:" + (thm or ("none(" + ("top-level-only-with-deletions-or-np-risk" if toponly else
+                                                         "changes-below-top-level" + ("" if fresh else "-not-fresh")) + ")"))] += 1
             if thm and not exact:
                 cx.fail(COMP, "model: the statement of the proved theorem %s evaluates to false on an input inside its hypotheses" % thm,
                         payload(h, "valdiff-model", vi, more=["model-law", thm]))
@@ -510,13 +513,15 @@ def law_model(cx, schemas, hists, rl):
             # Props/C07Completion.lean: hypotheses and statements of the whole-tree theorems on this input
             if len(sh) >= 13:
                 nch, nst, exh, exs = (c == "1" for c in sh[9:13])
+                allh = len(sh) >= 14 and sh[13] == "1"
                 choicefree = not any(n.kind == "choice" for n in h.s.nodes)
-                cx.dist["implicit-tree:" + ("nochoice-theorem-applies" if nch else "explicit-half-applies" if exh else
+                cx.dist["implicit-tree:" + ("implicit_exact_tree-applies" + ("(choice-free)" if choicefree else "(with-choice)") if allh else
+                                            "nochoice-theorem-applies" if nch else "explicit-half-applies" if exh else
                                             "none(" + ("not-fresh" if not fresh else "schema-with-choice" if not choicefree else "other") + ")")] += 1
                 cx.dist["implicit-tree-model:validate=rfcComplete " + ("holds" if nst else "FAILS")] += 1
-                if (nch and not nst) or (exh and not exs):
+                if ((nch or allh) and not nst) or (exh and not exs):
                     cx.fail(COMP, "model: the statement of %s evaluates to false on an input inside its hypotheses" %
-                            ("implicit_exact_tree_nochoice" if nch and not nst else "implicit_exact_tree_explicit"),
+                            ("implicit_exact_tree" if (nch or allh) and not nst else "implicit_exact_tree_explicit"),
                             payload(h, "implicit-model", vi, more=["model-law"]))
             for key in ("idem", "same", "apply", "exact"):
                 x, y = fa.get("%s%d" % (key, vi)), fb.get("%s%d" % (key, vi))
